@@ -326,7 +326,10 @@ class RedfieldRelaxationTensor(RelaxationTensor):
             qr.log_quick("Calculating bath component", ms, "of", Nb, end="\r")
             #print(ms, "of", Nb)
             #for ns in range(Nb):
-            if not multi_ex:
+            # bath components are taken as mutually uncorrelated, also beyond
+            # the single-exciton band (the system parts sbi.KK contain the
+            # projections on the multi-exciton states)
+            if True:
                 ns = ms
                 
                 # correlation function of site ns (if ns == ms)
